@@ -129,7 +129,7 @@ func eval(frame []byte, class, mode string, code uint8, res *ev.Result, lc *loca
 			exp.Valid = true
 			exp.Want = want.Frame(false)
 		}
-	case called && mode == "typed-error":
+	case called && (mode == "typed-error" || mode == "wrapped-typed-error"):
 		exp.ExcCode = int(code)
 	case called:
 		// generic handler error: exception with the request's function; the statement does not fix the code
@@ -180,7 +180,7 @@ type handlerKind struct {
 
 func run(tier string, shard, nsh int, res *ev.Result) {
 	thorough := tier == "thorough"
-	handlers := []handlerKind{{"device", 0}, {"typed-error", 1}, {"typed-error", 2}, {"typed-error", 3}, {"typed-error", 4}, {"typed-error", 6}, {"generic-error", 0}}
+	handlers := []handlerKind{{"device", 0}, {"typed-error", 1}, {"typed-error", 2}, {"typed-error", 3}, {"typed-error", 4}, {"typed-error", 6}, {"wrapped-typed-error", 2}, {"wrapped-typed-error", 3}, {"generic-error", 0}}
 	var jobs []func(lc *local)
 	add := func(f func(lc *local)) { jobs = append(jobs, f) }
 	base := func(fc uint8) spec.Req {
